@@ -25,6 +25,7 @@ struct Cfg {
     bool nonsimple_paths = false; // allow non-simple (multi-element / tapered) paths
     bool close_vertices = false;  // allow path vertices exactly one grid step apart
     bool robust_paths = false;
+    bool multi_element_simple_paths = false;  // simple FlexPaths with 2-3 parallel elements (one PATH each)
     bool dangling = false;        // references to cells that are not in the library
     bool props = true;
     bool reps = true;
@@ -327,7 +328,8 @@ inline model::MRep repetition(Ctx& c, bool for_ref) {
     model::MRep rep;
     Rng& r = c.r;
     if (!c.cfg.reps || !r.chance(for_ref ? 0.45 : 0.25)) return rep;
-    switch (r.below(5)) {
+    int kind = (int)r.below(5);
+    switch (kind) {
         case 0:
             rep.type = model::REP_RECT;
             rep.cols = (uint64_t)r.range(1, 5);
@@ -353,6 +355,23 @@ inline model::MRep repetition(Ctx& c, bool for_ref) {
                 rep.v2 = Pt{-b, b};
             }
             break;
+    }
+    if ((rep.type == model::REP_RECT || rep.type == model::REP_REGULAR) && r.chance(0.02)) {
+        // counts at the limits of one- and two-byte fields (GDSII COLROW is a signed 16-bit pair)
+        static const uint64_t big[] = {127, 128, 255, 256, 1000, 32767, 32768, 40000, 65535};
+        uint64_t n = big[r.below(for_ref ? 9 : 4)];
+        uint64_t other = r.chance(0.8) ? 1 : 2;
+        if (r.chance(0.5)) {
+            rep.cols = n;
+            rep.rows = other;
+        } else {
+            rep.rows = n;
+            rep.cols = other;
+        }
+        return rep;
+    }
+    if (rep.type != model::REP_NONE) return rep;
+    switch (kind) {
         case 2: {
             rep.type = model::REP_EXPLICIT;
             int n = (int)r.range(1, 6);
@@ -436,6 +455,10 @@ inline model::MPoly polygon(Ctx& c, bool allow_big) {
         } break;
         case 10: {  // above the GDSII record limit
             int n = (int)r.range(8191, 8600);
+            if (r.chance(0.4)) {  // around the capacity of one XY record and of two
+                static const int edge[] = {8189, 8190, 8191, 16379, 16380, 16381};
+                n = edge[r.below(6)];
+            }
             Pt ctr = Pt{ongrid(c, -1000, 1000), ongrid(c, -1000, 1000)};
             for (int i = 0; i < n; i++) {
                 double rad = 40000.0 + 200.0 * ((i * 7919) % 13) / 13.0;
@@ -452,6 +475,19 @@ inline model::MPoly polygon(Ctx& c, bool allow_big) {
             } else {
                 for (int i = 0; i < n; i++) p.pts.push_back(point(c));
             }
+        }
+    }
+    if ((kind <= 1 || kind == 4) && r.chance(0.15)) {
+        // one redundant vertex in the middle of an axis-parallel edge (legal, and kept by both formats); the
+        // start vertex is rotated below, so it is sometimes the first or the last one of the list
+        size_t n = p.pts.size();
+        size_t i = r.below(n);
+        Pt a = p.pts[i], b = p.pts[(i + 1) % n];
+        dg_t len = llabs(b.x - a.x) + llabs(b.y - a.y);
+        if ((a.x == b.x || a.y == b.y) && len >= 20) {
+            dg_t d = 10 * r.range(1, len / 10 - 1);
+            Pt q = a.x == b.x ? Pt{a.x, a.y + (b.y > a.y ? d : -d)} : Pt{a.x + (b.x > a.x ? d : -d), a.y};
+            p.pts.insert(p.pts.begin() + (long)i + 1, q);
         }
     }
     if (kind != 10) shuffle_cycle(r, p.pts);
@@ -514,6 +550,16 @@ inline model::MPath path(Ctx& c) {
     p.scale_width = oas ? true : r.chance(0.75);
     p.rep = repetition(c, false);
     p.props = props(c, true);
+    if (c.cfg.multi_element_simple_paths && r.chance(0.08)) {
+        // a straight axis-parallel centre line with two or three parallel elements: every element is a PATH
+        // record of its own, displaced sideways by an exact amount
+        Pt a = p.spine[0];
+        dg_t len = ongrid(c, 5, 300);
+        p.spine = r.chance(0.5) ? std::vector<Pt>{a, Pt{a.x + len, a.y}} : std::vector<Pt>{a, Pt{a.x, a.y - len}};
+        p.nelem = (int)r.range(2, 3);
+        p.sep = 2 * ongrid(c, 1, 40);
+        return p;
+    }
     if (c.cfg.robust_paths && manhattan && r.chance(0.4)) {
         // the writer samples a RobustPath's centre line at interior points: only on axis-parallel
         // segments do those samples stay exactly on the line after rounding
@@ -598,7 +644,18 @@ inline model::MRef reference(Ctx& c, const std::string& target, bool by_name) {
     }
     m.xrefl = r.chance(0.3);
     m.rep = repetition(c, true);
-    if (m.rep.type == model::REP_REGULAR && r.chance(0.5)) {
+    bool huge = (m.rep.type == model::REP_RECT || m.rep.type == model::REP_REGULAR) && m.rep.cols * m.rep.rows > 2000;
+    if (huge && c.cfg.mode == canon::GDS) {
+        // written as an AREF only when the lattice follows the rotated axes; as 65535 SREFs it is only bulk
+        static const double q90[] = {0, 90, 180, 270};
+        m.rot_deg = q90[r.below(4)];
+        if (m.rep.type == model::REP_RECT) {
+            m.rep.type = model::REP_REGULAR;
+            m.rep.v1 = Pt{m.rep.sp.x, 0};
+            m.rep.v2 = Pt{0, m.rep.sp.y};
+        }
+    }
+    if (m.rep.type == model::REP_REGULAR && (huge || r.chance(0.5))) {
         // make the lattice follow the rotated axes exactly when that is possible on the grid
         int q = (int)llround(m.rot_deg / 90.0);
         if (fabs(m.rot_deg - 90.0 * q) < 1e-12) {
@@ -698,7 +755,7 @@ inline model::MLib library(Rng& r, const Cfg& cfg) {
         for (int k = 0; k < np; k++) {
             bool big = cfg.big_polygons && !big_done && r.chance(0.1);
             cell.polys.push_back(polygon(c, big));
-            if (cell.polys.back().pts.size() > 8190) big_done = true;
+            if (cell.polys.back().pts.size() >= 8000) big_done = true;
         }
         for (int k = 0; k < nw; k++) cell.paths.push_back(path(c));
         if (cfg.big_polygons && !big_path_done && r.chance(0.05)) {
